@@ -58,18 +58,46 @@ class Func:
         self.ret = (nty(node) or '').split('(')[0].strip()
         self.params = [(c.get('name', ''), nty(c)) for c in node.get('inner', []) if c.get('kind') == 'ParmVarDecl']
         self._body = None
+        self._raw = None
+        self.access = node.get('_access')       # public / protected / private for members, None for free functions
         self.is_static = node.get('storageClass') == 'static'
         self.is_virtual = bool(node.get('virtual'))
 
     @property
+    def raw_body(self):
+        """the normalised body as written (calls to later-extracted helpers still in place)"""
+        if self._raw is None:
+            from .ir import normalise
+            self._raw = normalise(Lowerer(self.tu, self).lower_function())
+        return self._raw
+
+    @property
     def body(self):
+        """the body every rule analyses: helpers that are not part of the reference vocabulary are inlined"""
         if self._body is None:
             from .ir import normalise
-            self._body = normalise(Lowerer(self.tu, self).lower_function())
+            from .inline import inline_helpers
+            self._body = normalise(inline_helpers(self.raw_body, self.tu, self.name))
         return self._body
 
     def __repr__(self):
         return '<Func %s%s @%s>' % (self.name, ('<' + self.inst + '>') if self.inst else '', self.loc)
+
+
+_VOCAB = None
+
+
+def load_vocabulary():
+    """the qualified names of the library functions of the tree the checker was built against (acv/vocabulary.txt,
+    written by tools/mkvocab.py); empty when the file is missing - then nothing is treated as a later-extracted helper"""
+    global _VOCAB
+    if _VOCAB is None:
+        p = os.path.join(os.path.dirname(os.path.abspath(__file__)), 'vocabulary.txt')
+        _VOCAB = set()
+        if os.path.exists(p):
+            with open(p) as fh:
+                _VOCAB = {ln.strip() for ln in fh if ln.strip() and not ln.startswith('#')}
+    return _VOCAB
 
 
 class TU:
@@ -89,6 +117,46 @@ class TU:
         self._texts = {}
         self._annotate()
         self._index(self.root, '', None, None)
+        # functions that are not part of the reference vocabulary are helpers somebody extracted later (acv/inline.py):
+        # their calls are inlined into their callers, and the non-public ones are analysed only there
+        self.vocabulary = load_vocabulary()
+        self.helpers = {}
+        if self.vocabulary:
+            for q in list(self.funcs):
+                if q.startswith('ace_time::') and q not in self.vocabulary:
+                    self.helpers[q] = self.funcs.pop(q)
+            if self.helpers:
+                self._settle_helpers()
+
+    def _settle_helpers(self):
+        """a helper stays hidden (analysed only inside its callers) when it is called from the vocabulary functions and every
+        such call could be inlined; one that is never called, or whose call had to be left in place, is analysed on its own"""
+        from .ir import all_exprs
+        called, remaining = set(), set()
+        todo = [f for q, fs in self.funcs.items() if q.startswith('ace_time::') for f in fs if f.inst != 'primary']
+        seen = set()
+        while todo:
+            f = todo.pop()
+            if id(f) in seen:
+                continue
+            seen.add(id(f))
+            try:
+                raw = f.raw_body
+                body = f.body if f.name not in self.helpers else raw
+            except AnalysisError:
+                continue
+            for e in all_exprs(raw):
+                if e.k == 'call' and e.a[0] in self.helpers:
+                    if e.a[0] not in called:
+                        called.add(e.a[0])
+                        todo.extend(x for x in self.helpers[e.a[0]] if x.inst != 'primary')
+            if f.name not in self.helpers:
+                for e in all_exprs(body):
+                    if e.k == 'call' and e.a[0] in self.helpers:
+                        remaining.add(e.a[0])
+        for q in list(self.helpers):
+            if q not in called or q in remaining:
+                self.funcs[q] = self.helpers.pop(q)
 
     # -- parsing ---------------------------------------------------------------
     def _parse(self, extra_args):
@@ -189,9 +257,19 @@ class TU:
 
     # -- indexing --------------------------------------------------------------
     def _index(self, n, prefix, cls, inst):
+        acc = None if cls is None else ('private' if n.get('tagUsed') == 'class' else 'public')
         for c in n.get('inner', []):
             k = c.get('kind')
             name = c.get('name')
+            if k == 'AccessSpecDecl':
+                acc = c.get('access', acc)
+                continue
+            if k in ('CXXMethodDecl', 'FunctionTemplateDecl', 'CXXConstructorDecl') and cls is not None:
+                c['_access'] = acc
+                if k == 'FunctionTemplateDecl':
+                    for x in c.get('inner', []):
+                        if x.get('kind') in ('CXXMethodDecl', 'FunctionDecl'):
+                            x['_access'] = acc
             if k == 'NamespaceDecl':
                 self._index(c, prefix + (name or '(anon)') + '::', None, None)
             elif k == 'LinkageSpecDecl':
@@ -281,8 +359,13 @@ class TU:
         return ', '.join(out)
 
     # -- look-ups ----------------------------------------------------------------
+    def is_helper(self, qual):
+        """a function of the library that the reference vocabulary does not know"""
+        return bool(self.vocabulary) and qual.startswith('ace_time::') and qual not in self.vocabulary and \
+            bool(self.funcs.get(qual) or self.helpers.get(qual))
+
     def fns(self, qual, inst=None, allow_primary=False):
-        fs = self.funcs.get(qual, [])
+        fs = self.funcs.get(qual) or self.helpers.get(qual, [])
         real = [f for f in fs if f.inst != 'primary']
         if real:
             fs = real
@@ -300,7 +383,7 @@ class TU:
         return fs[0]
 
     def has_fn(self, qual):
-        return bool(self.funcs.get(qual))
+        return bool(self.funcs.get(qual) or self.helpers.get(qual))
 
     def cls(self, qual, inst=None):
         cs = self.classes.get(qual, [])
